@@ -149,12 +149,17 @@ def opIloc (args : List String) : String :=
         match takeV3 rest with
         | some (p, _) =>
           let periodic := per == "1"
-          let ax (a w x : Rat) (on : Bool) : String :=
-            let (A, W) := Grid.tripled a w on
-            let r := Grid.rescaleExact Gen.gridPad Gen.gridSpan A W x
+          -- the builders normalise the unused axes before the boundary is built
+          let (a, w) := Oracle.normalise dim a w
+          let t0 := Grid.tripled a.x w.x periodic
+          let t1 := Grid.tripled a.y w.y (periodic && dim ≥ 2)
+          let t2 := Grid.tripled a.z w.z (periodic && dim ≥ 3)
+          let ax (t : Rat × Rat) (axis : Nat) (x : Rat) : String :=
+            let g := Grid.gridWidth Gen.gridSharedScale dim t0.2 t1.2 t2.2 axis
+            let r := Grid.rescaleExactG Gen.gridPad Gen.gridSpan t.1 t.2 g x
             let m := Grid.mantissa r
             s!"{ratStr r} {m.floor}"
-          ax a.x w.x p.x periodic ++ " " ++ ax a.y w.y p.y (periodic && dim ≥ 2) ++ " " ++ ax a.z w.z p.z (periodic && dim ≥ 3)
+          ax t0 0 p.x ++ " " ++ ax t1 1 p.y ++ " " ++ ax t2 2 p.z
         | none => "bad-op"
       | none => "bad-op"
     | _, _ => "bad-op"
